@@ -64,6 +64,9 @@ pub enum Inbound {
         payload_len: u16,
     },
     Pubrel { pid: u16, known: bool },
+    /// a QoS 0 PUBLISH to the first subscription with a payload of `kib` KiB (remaining
+    /// length widths of 3 and 4 bytes)
+    BigPublish { kib: u16 },
 }
 
 #[derive(Clone, Debug, PartialEq, Eq, Serialize, Deserialize)]
@@ -384,8 +387,9 @@ impl<'a> Sim<'a> {
     }
 
     fn mark_ctx_polled(&mut self) {
-        // the context can only process input when it is not stuck on the writer
-        if self.w.writer.blocked() {
+        // the context can only process input when it is not stuck on the writer; and if
+        // run() returned during this poll, what it had not handled yet stays unhandled
+        if self.w.writer.blocked() || !self.w.ctx_active() {
             return;
         }
         for m in self.mops.iter_mut() {
@@ -868,6 +872,23 @@ impl<'a> Sim<'a> {
                 Some(self.build_publish(*qos % 3, *dup, *retain, *pid, *target, *payload_len))
             }
             Inbound::Pubrel { pid, known } => Some(self.build_pubrel(*pid, *known)),
+            Inbound::BigPublish { kib } => {
+                let mut b = self.build_publish(0, false, false, 0, Target::Sub(0), 0);
+                // rebuild with the large payload: decode what build_publish produced, extend
+                let Ok(rc::Packet::Publish(mut p)) = rc::decode_one(&b, rc::Dir::FromServer) else { return Some(b) };
+                p.payload.extend(crate::gen::make_bytes(*kib as usize * 1024, 7));
+                // keep the model's expectation in step (payload is part of the view)
+                let view = msg_expected(&p);
+                for ms in self.msubs.iter_mut().flatten() {
+                    if let Some(last) = ms.expected.last_mut() {
+                        if last.topic == view.topic {
+                            *last = view.clone();
+                        }
+                    }
+                }
+                b = rc::encode(&rc::Packet::Publish(p), &rc::Form::canonical());
+                Some(b)
+            }
         }
     }
 
